@@ -260,6 +260,36 @@ theorem finally_starts_unless_prior_cause (g : Graph) (hw : wf g = true) (sched 
   (handler_starts_unless_prior_cause g hw sched pre post p i y f ok hs hc hret
     (by unfold selected; simp [hf])).2
 
+/-- non-vacuity: on the example run the owner (0) closes after the try block at its command 1; the
+fail handler (2) and `finally` (3) are selected, both started; `finally` was accepted before the fail
+handler -/
+example : ∃ pre post, (run gEx16 schedEx16).tr = pre ++ Ev.done 0 true :: post ∧
+    gEx16.cmdAt 0 1 = some (.try_ 0) ∧ Ev.ret 0 1 true ∈ pre ∧ 2 ∈ selected gEx16 pre 0 ∧ 3 ∈ selected gEx16 pre 0 ∧
+    Ev.cmd 2 0 ∈ pre ∧ Ev.cmd 3 0 ∈ pre :=
+  ⟨[.sub 0, .acc 0, .cmd 0 0, .ret 0 0 true, .cmd 0 1, .ret 0 1 true, .cmd 1 0, .ret 1 0 true,
+    .cmd 1 1, .ret 1 1 false, .done 1 false, .hacc 3, .hacc 2, .cmd 3 0, .ret 3 0 true, .done 3 true,
+    .cmd 2 0, .ret 2 0 true, .done 2 true, .cmd 0 2, .ret 0 2 true],
+   [.mwait false, .fin 0 true, .fin 1 false, .fin 2 true, .fin 3 true, .root true],
+   by rw [gEx16_trace]; rfl, by decide, by decide, by decide, by decide, by decide, by decide⟩
+
+example : ∃ pre post, (run gEx16 schedEx16).tr = pre ++ Ev.hacc 2 :: post ∧ gEx16.role 2 = .hfail 0 ∧
+    (gEx16.tryd 0).fin = some 3 ∧ Ev.hacc 3 ∈ pre :=
+  ⟨[.sub 0, .acc 0, .cmd 0 0, .ret 0 0 true, .cmd 0 1, .ret 0 1 true, .cmd 1 0, .ret 1 0 true,
+    .cmd 1 1, .ret 1 1 false, .done 1 false, .hacc 3], _, by rw [gEx16_trace]; rfl, by decide, by decide, by decide⟩
+
+/-- the excuse in action (a run of the model): the fail handler (2) of `gEx16f` fails before `finally`
+(3) has entered its first command; `finally` closes without having started — its fate is sealed by
+`done 3 false`, and the cause (`ret 2 0 false`, context 0 = the owner's) lies before that event -/
+example : ∃ pre post a b, (run gEx16f schedEx16f).tr = pre ++ Ev.done 0 false :: post ∧
+    3 ∈ selected gEx16f pre 0 ∧ Ev.cmd 3 0 ∉ pre ∧
+    pre = a ++ Ev.done 3 false :: b ∧ sealsFate gEx16f 0 3 (.done 3 false) ∧ Ev.ret 2 0 false ∈ a ∧ gEx16f.ctx 2 = gEx16f.ctx 0 :=
+  ⟨[.sub 0, .acc 0, .cmd 0 0, .ret 0 0 true, .cmd 0 1, .ret 0 1 true, .cmd 1 0, .ret 1 0 true,
+    .cmd 1 1, .ret 1 1 false, .done 1 false, .hacc 3, .hacc 2, .cmd 2 0, .ret 2 0 false, .done 2 false, .done 3 false],
+   [.mwait false, .fin 0 false, .fin 1 false, .fin 2 false, .fin 3 false, .root false],
+   [.sub 0, .acc 0, .cmd 0 0, .ret 0 0 true, .cmd 0 1, .ret 0 1 true, .cmd 1 0, .ret 1 0 true,
+    .cmd 1 1, .ret 1 1 false, .done 1 false, .hacc 3, .hacc 2, .cmd 2 0, .ret 2 0 false, .done 2 false],
+   [], by rw [gEx16f_trace]; rfl, by decide, by decide, rfl, Or.inl rfl, by decide, rfl⟩
+
 /-! ### Steered schedules
 
 `pol y` says how the harness's gate controller steers try block `y`: it holds the first command of
